@@ -798,7 +798,10 @@ class NDCubeBase(NDCubeABC, astropy.nddata.NDData, NDCubeSlicingMixin):
             if low_level_target_wcs.pixel_n_dim != 2 or low_level_target_wcs.world_n_dim != 2:
                 raise ValueError('For adaptive and exact algorithms, target_wcs must be 2D.')
 
-            if not has_celestial(target_wcs):
+            # has_celestial needs the high level API, which a bare low level WCS does not have.
+            high_level_target_wcs = (target_wcs if isinstance(target_wcs, BaseHighLevelWCS)
+                                     else HighLevelWCSWrapper(low_level_target_wcs))
+            if not has_celestial(high_level_target_wcs):
                 raise ValueError('For adaptive and exact algorithms, '
                                  'target_wcs must contain celestial axes only.')
 
